@@ -89,6 +89,8 @@ func makeBoxes(tier string) []*Box {
 			MaxDev  int    `json:"max_deviations"`
 			Depth   int    `json:"max_depth"`
 			Kinds   string `json:"kinds"`
+			Devs    string `json:"devs"`
+			LP      bool   `json:"leader_propose"`
 		}
 		if err := json.Unmarshal([]byte(tj), &t); err != nil {
 			panic(err)
@@ -112,7 +114,18 @@ func makeBoxes(tier string) []*Box {
 				}
 			}
 		}
+		for _, ch := range t.Devs {
+			for k := range evShort {
+				if evShort[k] == string(ch) {
+					b.Devs |= 1 << uint(k)
+				}
+			}
+		}
+		b.LeaderPropose = t.LP
 		bs = append(bs, b)
+	}
+	for _, b := range bs {
+		b.finish()
 	}
 	return bs
 }
